@@ -171,7 +171,7 @@ func StateAt(base map[backend.Handle][]byte, ops []Op, seq int) map[backend.Hand
 		if op.Seq > seq {
 			break
 		}
-		if !op.OK && !(op.Injected && op.Data != nil && op.Kind == "Save" && op.Mark == "after-effect") {
+		if !op.OK && !(op.Data != nil && op.Kind == "Save" && op.Mark == "after-effect") {
 			if !(op.Injected && op.Kind == "Remove" && op.Mark == "after-effect") {
 				continue
 			}
@@ -341,7 +341,19 @@ func (b *tbe) mutating(kind string, h backend.Handle, data []byte, do func() err
 		err = ferr
 		op.Injected = true
 	} else {
+		existed := false
+		if kind == "Save" {
+			_, serr := b.inner.Stat(context.Background(), h)
+			existed = serr == nil
+		}
 		err = do()
+		if err != nil && kind == "Save" && !existed {
+			// a backend may store the file and still report an error (the mem backend returns ctx.Err() after
+			// storing, real backends lose the reply): the operation took effect
+			if _, serr := b.inner.Stat(context.Background(), h); serr == nil {
+				op.Mark = "after-effect"
+			}
+		}
 		if err == nil && ferr != nil {
 			err = ferr
 			op.Injected = true
